@@ -2,6 +2,7 @@ import FsutilModel.Sender
 import FsutilModel.Model.SendProto
 import FsutilModel.SenderStats
 import FsutilModel.Lemmas.C06Term
+import FsutilModel.Lemmas.C06Req
 /-! # C06 — Sender speaks the documented wire protocol -/
 namespace Fsm.C06
 open S
@@ -44,6 +45,28 @@ content (a DATA packet that carries content is not empty). -/
 theorem one_terminator_per_id (v : List (Bool × Bytes)) (es : List Ev) (s : St) (h : run (init v) es = some s) (id : Nat) :
     terms id s.out = if s.phase id = .finished then 1 else 0 :=
   termInv_run es _ _ (inv_init v) (termInv_init v) h id
+
+/-- Content and terminators are sent only for ids the receiver asked for: in every run of the sender, if any
+content byte or a terminator has gone out for an id, a request for that id was received earlier in the run. -/
+theorem content_only_for_requested (v : List (Bool × Bytes)) (es : List Ev) (s : St) (h : run (init v) es = some s) (id : Nat)
+    (hd : dataFor id s.out ≠ [] ∨ 0 < terms id s.out) : Ev.recvReq id ∈ es := by
+  have hpost : post (s.phase id) = true := by
+    rcases hd with hd | hd
+    · have hi := inv_run es _ _ (inv_init v) h
+      have hdat := hi.data id
+      cases hph : s.phase id with
+      | unannounced => rw [hph] at hdat; simp [prog] at hdat; exact absurd hdat hd
+      | requestable => rw [hph] at hdat; simp [prog] at hdat; exact absurd hdat hd
+      | queued => rfl
+      | active off => rfl
+      | finished => rfl
+    · have ht := one_terminator_per_id v es s h id
+      by_cases hf : s.phase id = .finished
+      · rw [hf]; rfl
+      · rw [ht] at hd; simp [hf] at hd
+  rcases post_run id es (init v) s h hpost with h0 | h0
+  · simp [init, post] at h0
+  · exact h0
 
 /-- non-vacuity: after the run above the one terminator of id 0 is counted, and none for id 1 -/
 example : ((run (init [(true, [1, 2, 3])]) [.sendStat, .recvReq 0, .sendEnd, .open_ 0, .data 0 2, .data 0 1, .term 0]).map
